@@ -12,13 +12,13 @@ import (
 )
 
 type config struct {
-	seed   uint64
-	tier   string
-	out    *out
-	replay string
-	search bool
-	scale  int // volume multiplier: 1 quick, 20 thorough (x3 more in search mode)
-	corpus string
+	seed    uint64
+	tier    string
+	out     *out
+	replay  string
+	search  bool
+	scale   int // volume multiplier: 1 quick, 20 thorough (x3 more in search mode)
+	corpus  string
 	outPath string
 }
 
